@@ -913,12 +913,22 @@ def seq_array(eng, v):
         return v.arr, v.length
     if isinstance(v, (list, tuple)):
         arr = z3.K(I_, z3.RealVal(0))
+        v = [_present(eng, x) for x in v]
         for i, x in enumerate(v):
             if isinstance(x, float) and (x != x or x in (float("inf"), float("-inf"))):
                 raise Unsupported("non-finite element in aggregate")
             arr = z3.Store(arr, i, to_term(x, "real"))
         return arr, z3.IntVal(len(v))
     raise Unsupported(f"aggregate over {type(v).__name__}")
+
+
+def _present(eng, x):
+    """an optional list element used as a number: None would be a TypeError in numpy"""
+    if isinstance(x, SymOpt):
+        if eng.truth(wrap(x.is_none)):
+            raise PyRaise(PyExc(TypeError, ("unsupported operand type(s): NoneType",)))
+        return x.value
+    return x
 
 
 class NpModule:
